@@ -732,6 +732,19 @@ func playHistory(en *env, r *emit.Rand, path string, nsteps int, mx mix, meta *e
 				mi = r.Intn(len(methods))
 			}
 			lines := randClientConds(r, rs.cur, meta)
+			if m := methods[mi].s; m != "GET" && m != "HEAD" {
+				// On a write the client's preconditions are not the cache layer's business: since bd24877 they are
+				// passed on to the origin (C08, scenario write-precondition and theorem C08_write_preconditions).
+				// Model/Proxy.v describes the cache layer (strip, then validators): other methods are exercised on
+				// requests without regular conditionals, where strip is the identity. If-Range stays.
+				kept := lines[:0]
+				for _, l := range lines {
+					if strings.HasPrefix(l, "If-Range:") {
+						kept = append(kept, l)
+					}
+				}
+				lines = kept
+			}
 			script := randScript(r)
 			// faults
 			flt := struct {
@@ -968,7 +981,7 @@ func main() {
 	w := &emit.Writer{Dir: *flagOut, Prefix: "reval", ShardSize: 60,
 		Imports:  "From Reservoir Require Import Base.Prelude Model.Freshness Model.Proxy Check.Proxy.",
 		CaseType: "pcase", CheckFn: checkFn}
-	meta.Rule = "sequential request histories (5-12 steps) for one resource each against the real in-process proxy with a raw scripted origin: steps = request (GET 90%, HEAD/POST/PUT/DELETE; client conditionals in 45% of the requests: If-None-Match / If-Modified-Since / If-Match / If-Unmodified-Since / If-Range with strong, weak, *, empty, list tags and IMF / RFC 850 / asctime / garbage / empty dates, repeated lines) answered by the origin from its current content and the validators it is shown (62%) or by a script of explicit statuses (304, 200, no-store, 404, 410, 500, 503, 416, 204, 203, 201); origin content change 28% / validator-only change 10% per request (ETag strong, weak, none, empty; Last-Modified none, IMF, RFC 850, asctime, unparseable (text, or a date with a numeric zone +0200); bodies of 0-5000 bytes) | clock advance {3s..31d} through the ageing hook, >= 2.5 s away from every candidate expiry instant | configuration switch (policy, default lifetime, retry_on_range_416) | removal of the entry | cache faults per scenario group (see the distribution: fault, between_requests). distinct = every history; non-trivial = a history with a HIT, a revalidation or an injected fault"
+	meta.Rule = "sequential request histories (5-12 steps) for one resource each against the real in-process proxy with a raw scripted origin: steps = request (GET 90%, HEAD/POST/PUT/DELETE; client conditionals in 45% of the GET/HEAD requests (other methods: If-Range only — since bd24877 a write's preconditions are passed on, which is C08's subject): If-None-Match / If-Modified-Since / If-Match / If-Unmodified-Since / If-Range with strong, weak, *, empty, list tags and IMF / RFC 850 / asctime / garbage / empty dates, repeated lines) answered by the origin from its current content and the validators it is shown (62%) or by a script of explicit statuses (304, 200, no-store, 404, 410, 500, 503, 416, 204, 203, 201); origin content change 28% / validator-only change 10% per request (ETag strong, weak, none, empty; Last-Modified none, IMF, RFC 850, asctime, unparseable (text, or a date with a numeric zone +0200); bodies of 0-5000 bytes) | clock advance {3s..31d} through the ageing hook, >= 2.5 s away from every candidate expiry instant | configuration switch (policy, default lifetime, retry_on_range_416) | removal of the entry | cache faults per scenario group (see the distribution: fault, between_requests). distinct = every history; non-trivial = a history with a HIT, a revalidation or an injected fault"
 
 	type group struct {
 		sc scenario
